@@ -11,7 +11,7 @@ use crate::world::{Must, invoke, tag, Fail, World};
 use crate::Cfg;
 use sha2::Digest;
 use soroban_sdk::xdr::ToXdr;
-use soroban_sdk::{Address, BytesN, Env, Vec as SVec};
+use soroban_sdk::{Address, BytesN, Env, Val, Vec as SVec};
 use std::collections::BTreeSet;
 
 type H32 = [u8; 32];
@@ -220,6 +220,36 @@ fn verifier_sweep(cfg: &Cfg, rep: &mut Report) {
                             check(rep, &format!("proof-insert-{name}-node"), call(&q, &root, &leaves[i], i as u32), false);
                         }
                     }
+                    // the proof handed over as a raw vector in which an entry is no 32-byte string (a number,
+                    // void, a byte string of 31 / 33 bytes, a symbol): an honest proof with such an entry
+                    // anywhere in it is no proof
+                    {
+                        let junk: [(&str, Val); 5] = [
+                            ("u32", soroban_sdk::IntoVal::into_val(&7u32, e)),
+                            ("void", Val::VOID.to_val()),
+                            ("31-bytes", soroban_sdk::IntoVal::into_val(&soroban_sdk::Bytes::from_slice(e, &[1u8; 31]), e)),
+                            ("33-bytes", soroban_sdk::IntoVal::into_val(&soroban_sdk::Bytes::from_slice(e, &[1u8; 33]), e)),
+                            ("symbol", soroban_sdk::IntoVal::into_val(&soroban_sdk::Symbol::new(e, "x"), e)),
+                        ];
+                        let (name, jv) = &junk[rng.idx(5)];
+                        let pos = *rng.pick(&[0usize, p.len(), p.len() / 2]);
+                        let mut raw: SVec<Val> = SVec::new(e);
+                        for (k, x) in p.iter().enumerate() {
+                            if k == pos {
+                                raw.push_back(*jv);
+                            }
+                            raw.push_back(soroban_sdk::IntoVal::into_val(&BytesN::from_array(e, x), e));
+                        }
+                        if pos >= p.len() {
+                            raw.push_back(*jv);
+                        }
+                        let mut a = args!(e, raw, BytesN::from_array(e, &root), BytesN::from_array(e, &leaves[i]));
+                        if positional {
+                            a.push_back(soroban_sdk::IntoVal::into_val(&(i as u32), e));
+                        }
+                        let got: Result<bool, Fail> = invoke(e, &c, f, a);
+                        check(rep, &format!("proof-with-ill-typed-entry-{name}"), got, false);
+                    }
                     if n > 1 {
                         let j = (i + 1 + rng.idx(n - 1)) % n;
                         check(rep, "other-leaf", call(p, &root, &leaves[j], i as u32), false);
@@ -395,7 +425,12 @@ fn distributor(cfg: &Cfg, rep: &mut Report, h: u64, variant: u32) {
     let funder = w.account();
     invoke::<()>(e, &token, "mint", args!(e, funder, 1_000_000i128)).unwrap();
     // a third of the airdrop histories are under-funded: a valid proof whose payout fails marks nothing
-    let mut pot: i128 = if variant == 3 && rng.chance(1, 3) { 30 + rng.below(60) as i128 } else { 100_000 };
+    // (and some are deployed with no funding at all: the root is in force all the same, allocations of 0
+    // can be claimed, the others cannot be paid)
+    let mut pot: i128 = if variant == 3 && rng.chance(1, 3) { if rng.chance(1, 3) { 0 } else { 30 + rng.below(60) as i128 } } else { 100_000 };
+    if variant == 3 && pot == 0 {
+        rep.count("airdrops_deployed_without_funding");
+    }
     // the tree in force before the last root change
     let mut old_tree: Option<(Vec<Vec<H32>>, Vec<(u32, usize, i128)>)> = None;
     let c: Address = if variant == 3 {
@@ -538,7 +573,7 @@ fn distributor(cfg: &Cfg, rep: &mut Report, h: u64, variant: u32) {
 }
 
 pub fn run(cfg: &Cfg, rep: &mut Report) {
-    rep.rule = "(a) for both hashers and both forms (sorted-pair, positional with index), every tree size 1..=65 (thorough 400) with fresh random leaves (split over shards): every leaf (beyond 40 leaves: first, last and a sample) with its honest proof from an independent tree builder, and every single corruption: one bit in each proof element, adjacent swap, first/last dropped, last duplicated, element appended, a node of a special value (all zero, all ones, the leaf, the root) inserted at the front / inside / at the end, other leaf, random leaf, leaf bit, random root, root bit, every other index < 2^len (sampled beyond 64), index = 2^len and u32::MAX; single-path positional proofs of depth 30, 31 and 32, sorted-pair combs of depth 31-40; (b) distributor histories on a wrapper (Keccak sorted, Keccak indexed, Sha256 indexed) and the airdrop example: valid claims (a sixth of the leaves allocate 0), repeats, proofs of other indices, wrong / zero / negative amount, wrong receiver / index, empty proof, root changes (claims proved against the previous root are retried), ledger jumps, under-funded airdrops (a valid proof whose payout fails). Sorted-pair trees are also built with two equal adjacent leaves and with odd nodes paired with themselves (a sibling equal to the running node). Distinct case = (hasher, form, tree-size class, leaf position, corruption kind, outcome).".into();
+    rep.rule = "(a) for both hashers and both forms (sorted-pair, positional with index), every tree size 1..=65 (thorough 400) with fresh random leaves (split over shards): every leaf (beyond 40 leaves: first, last and a sample) with its honest proof from an independent tree builder, and every single corruption: one bit in each proof element, adjacent swap, first/last dropped, last duplicated, element appended, an entry that is no 32-byte string (number, void, 31 / 33 bytes, symbol) inserted, a node of a special value (all zero, all ones, the leaf, the root) inserted at the front / inside / at the end, other leaf, random leaf, leaf bit, random root, root bit, every other index < 2^len (sampled beyond 64), index = 2^len and u32::MAX; single-path positional proofs of depth 30, 31 and 32, sorted-pair combs of depth 31-40; (b) distributor histories on a wrapper (Keccak sorted, Keccak indexed, Sha256 indexed) and the airdrop example: valid claims (a sixth of the leaves allocate 0), repeats, proofs of other indices, wrong / zero / negative amount, wrong receiver / index, empty proof, root changes (claims proved against the previous root are retried), ledger jumps, under-funded and unfunded airdrops (a valid proof whose payout fails; allocations of 0 still claimable). Sorted-pair trees are also built with two equal adjacent leaves and with odd nodes paired with themselves (a sibling equal to the running node). Distinct case = (hasher, form, tree-size class, leaf position, corruption kind, outcome).".into();
     verifier_sweep(cfg, rep);
     deep_paths(cfg, rep);
     let nh = cfg.pick(30u64, 1500);
